@@ -65,34 +65,6 @@ def idsL : List Tree → List Nat
   | t :: ts => ids t ++ idsL ts
 end
 
-/-- `is_final` as the loop leaves it: the verdict of the LAST child (`d` when there is none) -/
-def lastFin (D : Defs) : List Tree → Bool → Bool
-  | [], d => d
-  | t :: ts, _ => lastFin D ts (fin D t)
-
-/-- item 10 shows at a state whose active children are not all final while the last one is -/
-def leakAt (D : Defs) (kids : List Tree) : Bool := lastFin D kids false && !finAll D kids
-
-mutual
-def noLeak (D : Defs) : Tree → Bool
-  | .node _ kids => !leakAt D kids && noLeakL D kids
-def noLeakL (D : Defs) : List Tree → Bool
-  | [] => true
-  | t :: ts => noLeak D t && noLeakL D ts
-end
-
-/-- item 11 shows at a final-flagged state that was entered with active children not all final -/
-def compoundAt (D : Defs) (E : List Nat) (s : Nat) (kids : List Tree) : Bool :=
-  D.final s && entered E s && !kids.isEmpty && !finAll D kids
-
-mutual
-def noCompound (D : Defs) (E : List Nat) : Tree → Bool
-  | .node s kids => !compoundAt D E s kids && noCompoundL D E kids
-def noCompoundL (D : Defs) (E : List Nat) : List Tree → Bool
-  | [] => true
-  | t :: ts => noCompound D E t && noCompoundL D E ts
-end
-
 def allIn (E : List Nat) : List Tree → Bool
   | [] => true
   | t :: ts => entered E t.id && allIn E ts
